@@ -57,6 +57,48 @@ func (spaceEngine) Generate(rng *rand.Rand, prop string, thorough bool) *Plan {
 		ops = append(ops, Op{K: "put", Key: k, ID: id, Size: sz})
 	}
 	delProb := []int{10, 25, 50}[rng.Intn(3)]
+	// shapes: 0 = compaction after the writes of the same session (restarts now and then);
+	// 1 = one session per cycle, compaction FIRST ("compact on startup"), then the writes, then Close:
+	//     the garbage of a session is only ever seen by the next one, through the persisted segment metas;
+	// 2 = like 0 with bursts of idle restarts (Close/Open with nothing in between)
+	shape := rng.Intn(3)
+	idle := func() {
+		for k := 2 + rng.Intn(6); k > 0; k-- {
+			ops = append(ops, Op{K: "close"}, Op{K: "open"})
+		}
+	}
+	if shape == 1 {
+		// every session rewrites a multiple of the live data, so whatever is not reclaimed shows quickly
+		prof = []int{100, 200, 300}
+	}
+	for c := 0; c < cycles && shape == 1; c++ {
+		ops = append(ops, Op{K: "compact"})
+		// each key is rewritten about once per session: what a session seals is fully live when its meta is
+		// persisted and fully dead one session later
+		for _, k := range rng.Perm(cfg.NKeys) {
+			if rng.Intn(100) < delProb/3 {
+				ops = append(ops, Op{K: "del", Key: k})
+			} else if rng.Intn(10) != 0 {
+				put(k)
+			}
+		}
+		if rng.Intn(8) == 0 {
+			for k := 0; k < cfg.NKeys; k++ {
+				ops = append(ops, Op{K: "del", Key: k})
+			}
+		}
+		if rng.Intn(4) == 0 {
+			ops = append(ops, Op{K: []string{"sync", "backup"}[rng.Intn(2)]})
+		}
+		ops = append(ops, Op{K: "close"}, Op{K: "open"})
+		if rng.Intn(6) == 0 {
+			idle()
+		}
+	}
+	if shape == 1 {
+		ops = append(ops, Op{K: "compact"})
+		cycles = 0
+	}
 	for c := 0; c < cycles; c++ {
 		purge := rng.Intn(8) == 0
 		n := cfg.NKeys/2 + rng.Intn(cfg.NKeys*2+1)
@@ -77,6 +119,9 @@ func (spaceEngine) Generate(rng *rand.Rand, prop string, thorough bool) *Plan {
 			ops = append(ops, Op{K: "close"}, Op{K: "open"})
 		}
 		ops = append(ops, Op{K: "compact"})
+		if shape == 2 && (purge || rng.Intn(5) == 0) {
+			idle()
+		}
 		// the database must remain fully usable afterwards
 		for _, k := range []string{"sync", "put", "del", "backup", "reopen", "compact"} {
 			if rng.Intn(3) != 0 {
@@ -104,6 +149,7 @@ type dirAudit struct {
 	idxBytes  int64
 	metaBytes int64
 	files     int
+	emptySegs int
 }
 
 // auditDir checks that every file of the database directory belongs to a live segment, the index,
@@ -129,6 +175,9 @@ func auditDir(fs *SimFS, open bool) (dirAudit, *Violation) {
 		case reSegFile.MatchString(n):
 			a.segs = append(a.segs, n)
 			a.segBytes += size
+			if size <= walHeaderSize {
+				a.emptySegs++
+			}
 		case reSegMeta.MatchString(n):
 			seg := reSegMeta.FindStringSubmatch(n)[1]
 			if !names[seg] {
@@ -211,6 +260,10 @@ func (spaceEngine) Execute(p *Plan) *RunResult {
 		if av != nil {
 			av.Detail = fmt.Sprintf("after op#%d %s: %s", i, op, av.Detail)
 			return fail(av)
+		}
+		// a segment file without a single record is at most the current one: more of them belong to no live data
+		if a.emptySegs > 1 {
+			return fail(violf("empty-segments-pile-up", "after op#%d %s: %d segment files hold no record at all (%d segment files in the directory, %d live keys)", i, op, a.emptySegs, len(a.segs), len(e.Model.M)))
 		}
 		// descriptors / mappings: exactly the live segments and the two index files while open, none after Close
 		h, per := e.FS.OpenHandles()
